@@ -2,3 +2,11 @@ pub mod rng;
 pub mod val;
 pub mod wire;
 pub use rng::Rng;
+
+/// Set by the worker in the interpreter tier: generators then avoid sizes that cost the
+/// interpreter minutes (the native tiers cover them).
+pub static SMALL_SIZES: std::sync::atomic::AtomicBool = std::sync::atomic::AtomicBool::new(false);
+
+pub fn small_sizes() -> bool {
+    SMALL_SIZES.load(std::sync::atomic::Ordering::Relaxed)
+}
